@@ -172,6 +172,10 @@ pub trait Ingredient: Any + fmt::Debug + Send + Sync {
         None
     }
 
+    /// Verification hook: append a textual dump of this ingredient's internal state.
+    #[cfg(salsa_rs_salsa_verif)]
+    fn verif_dump(&self, _zalsa: &Zalsa, _out: &mut Vec<String>) {}
+
     /// Whether this ingredient will be persisted with the database.
     fn is_persistable(&self) -> bool {
         false
